@@ -46,7 +46,7 @@ def _leaf_attrs(r, swarm):
     if swarm['updaters']:
         kinds += ['null', 'nonneg', 'nonneg', 'merge', 'merge', 'dict_value', 'affine', 'acc_nd', 'nonneg_nd']
     if swarm.get('units'):
-        kinds += ['qty'] * 4 + ['ser_int'] * 2
+        kinds += ['qty'] * 4 + ['ser_int'] * 2 + ['ser_qty']
     kind = r.pick(kinds)
     a = {'kind': kind, 'emit': r.chance(70)}
     if kind == 'acc_int':
@@ -62,6 +62,12 @@ def _leaf_attrs(r, swarm):
         a.update(updater=None, default=r.rint(0, 50), serializer='verif_ser_tag')
     elif kind == 'nonneg_nd':
         a.update(updater='nonnegative_accumulate', default={'__nd__': [r.rint(0, 9), r.rint(0, 9)]})
+    elif kind == 'ser_qty':
+        # a quantity (its unit: that of the default) with a custom serializer of its own
+        du = r.pick(['mm', 'mg'])
+        same_dim = {'mm': ['mm', 'um'], 'mg': ['mg', 'g']}[du]
+        a.update(updater=r.pick([None, 'set']), default={'__q__': [r.rint(1, 64) * 0.5, du]}, dims=same_dim,
+                 serializer='verif_ser_qtag')
     elif kind == 'qty':
         # declared unit differs from the unit of the default in half of the cases
         du = r.pick(['mm', 'mm', 'um', 'g', 'mg'])
@@ -121,7 +127,7 @@ def _vals_for(r, a, pname, swarm):
             v = {'__nd__': [r.rint(-3, 9), r.rint(-3, 9)]}
         elif kind == 'nonneg_nd':
             v = {'__nd__': [r.rint(-6, 9), r.rint(-6, 9)]}
-        elif kind == 'qty':
+        elif kind in ('qty', 'ser_qty'):
             v = {'__q__': [r.rint(-8, 64) * 0.5, r.pick(a['dims'])]}
         elif kind in ('set', 'null'):
             v = r.pick([0, 0, r.rint(1, 99), r.rint(1, 99)])
@@ -441,6 +447,10 @@ def topo_of(spec):
     return topo
 
 
+def qtag(q):
+    return 'qtag:%r|%s' % (float(q.magnitude), q.units)
+
+
 def register_updaters():
     from vivarium.core.registry import updater_registry, serializer_registry, Serializer
     if updater_registry.access('verif_affine') is None:
@@ -463,6 +473,13 @@ def register_updaters():
             def serialize(self, data):
                 return 'tag:%r' % (data,)
         serializer_registry.register('verif_ser_tag', SerTag())
+
+        class SerQTag(Serializer):
+            python_type = complex      # (no value of the cases has this type)
+
+            def serialize(self, data):
+                return qtag(data)
+        serializer_registry.register('verif_ser_qtag', SerQTag())
 
 
 def build(case, perm=None, parallel=()):
@@ -592,7 +609,7 @@ def build_model(case):
                 m.attr[e.abs] = {'default': e.schema.get('_default'),
                                  'updater': e.schema.get('_updater'),
                                  'emit': e.schema.get('_emit', False),
-                                 'units': e.schema.get('_units'),
+                                 'units': _units_of(e.schema),
                                  'serializer': e.schema.get('_serializer')}
             else:
                 globs_declared.setdefault(e.base, []).append(e)
@@ -613,10 +630,21 @@ def build_model(case):
                     m.attr[ce.abs] = {'default': ce.schema.get('_default'),
                                       'updater': ce.schema.get('_updater'),
                                       'emit': ce.schema.get('_emit', False),
-                                      'units': ce.schema.get('_units'),
+                                      'units': _units_of(ce.schema),
                                       'serializer': ce.schema.get('_serializer')}
                     m.val[ce.abs] = _dec(ce.schema.get('_default'))
     return m, decl, globs_declared
+
+
+def _units_of(schema):
+    """The unit a variable is kept in: the declared one, else that of a
+    quantity default."""
+    if schema.get('_units'):
+        return schema['_units']
+    d = schema.get('_default')
+    if isinstance(d, dict) and '__q__' in d:
+        return d['__q__'][1]
+    return None
 
 
 def apply_initial(m, init, path=()):
@@ -876,6 +904,10 @@ def check(case, run, stats=None):
                 at = m.attr.get(p_) or {}
                 if at.get('serializer') == 'verif_ser_tag':
                     return got[p_] == 'tag:%r' % (exp[p_],)
+                if at.get('serializer') == 'verif_ser_qtag':
+                    # in the variable's unit: that of its declared default
+                    du = _dec(at.get('default')).units
+                    return got[p_] == qtag(exp[p_].to(du))
                 return _emit_equal(got[p_], exp[p_], at.get('units'))
             if set(got) != set(exp) or any(not eq_(p_) for p_ in exp):
                 extra = sorted(set(got) - set(exp))
